@@ -15,6 +15,7 @@ CHECKS = {
  "C02": ("model_checking", "Every single tamper operation (bit flip at every body offset, truncate, extend, phase re-label, side rename/reflection, cross-phase replay, random and PAKE injection, drop, duplicate) at every position of both server->client message streams, plus BFS / deviation-bounded search with tamper operations as explored events (pairs of operations, all interleavings); ghost ledger of what honest parties encrypted is the oracle; derive_phase_key injectivity over a concatenation-ambiguity alphabet.", "adversary = server or third participant without the code; quick flips one bit per byte, thorough all eight", TECH),
  "C20": ("exploration", "Exhaustive enumeration of a hint-list grammar (valid direct/tor/relay hints, every single-field and pairwise mutation over 19 values, relay sub-hint mutations and non-object sub-hints, all priority type pairs, odd hostnames; ~2.3k lists) fed to TransitSender/TransitReceiver.add_connection_hints+connect() and to a CONNECTING dilation Manager on a simulated reactor; oracle: no exception, connect() not aborted, dial set within the reference set of valid targets, the valid neighbour hint still dialled; plus encode/parse and produce/consume round trips.", "no Tor manager; JSON booleans in `port` are don't-care; top-level entries are JSON objects as the property states", ENUM),
  "C19": ("model_checking", "choose_words decided by enumeration of the random bytes (bijection per position, independence, exact reads); allocation through the real Allocator/Code against the real server; malformed/well-formed code alphabet; word completions for every prefix of every list word at positions 0-2 against a reference comprehension; all 1-3 call sequences of the code-entry API; and a BFS in which every input-helper call sequence (<=3, thorough 4) is interleaved with the server's nameplates/claimed replies and compared step by step with a reference model of the helper.", "exotic whitespace / non-ASCII digits in nameplates and the readline thread are outside the stated alphabet", TECH),
+ "C05": ("exploration", "Exhaustive enumeration of offered file/directory names (all <=2, thorough <=3, component sequences over 9 components incl. '', '.', '..', '~', leading/trailing '/') x --output-file variants x pre-existing destination kinds x accept modes, plus zip member-name lists, each driven through the real Receiver._parse_offer/_handle_*/_write_* in a fresh tmpfs sandbox; oracle = diff of complete before/after filesystem snapshots (path, type, content, mode) against the documented destination.", "transit leg replaced by a fake record pipe; POSIX tmpfs", ENUM),
 }
 NA = {}
 props = [json.loads(l)["id"] for l in open(os.path.join(HERE, "properties.jsonl"))]
